@@ -96,7 +96,7 @@ class AbstractJunction(AbstractCondition, ABC):
                 elif isinstance(
                         condition,
                         NamedQuery
-                ) and none_table not in condition.tables:
+                ) and none_table not in condition.tables and not condition._inverted:
                     named_query_dict[
                         condition.name
                     ].add(
